@@ -3,9 +3,8 @@
 Oracles are explicit re-indexing with numpy index arrays (mirror(i) = ns - i, t(i) = sum(i)); none of dadi's
 reverse_array / _total_per_entry / fold / unfold is used to build an expected value.
 
-Convention modelled (see `bound` strings): Spectrum.fold() and Spectrum.unfold() build their result with the constructor
-default mask_corners=True, so the all-ancestral / all-derived entries of the *result* are always masked ("corners are
-unobservable"); everything else follows the property text literally.
+The property text is followed literally, including at the two corner entries: a corner the caller has unmasked stays unmasked
+through fold()/unfold() unless its mirror is masked (see _corners).
 """
 import itertools
 import math
@@ -45,9 +44,10 @@ def o_tot(shape):
 
 
 def _corners(mask):
-    mask = mask.copy()
-    mask.flat[0] = mask.flat[-1] = True
-    return mask
+    # The property is taken literally: the result's mask is the union of an entry's and its mirror's masks (plus the folded-out half) and
+    # nothing else.  (Until the fix recorded in known_findings.json, fold()/unfold() built their result with the constructor default
+    # mask_corners=True and so masked the two corner entries even when the caller had unmasked them, losing their counts from the total.)
+    return mask.copy()
 
 
 def o_fold(x, mask):
@@ -124,7 +124,7 @@ def drv_fold(tier, shard, nshard):
                      'mask patterns (none, default corners, exactly the folded-out/ambiguous/minor halves, all, single entries, mirror pairs, '
                      'hyperplanes, random 8/30/70%%; all 2^size patterns when size<=6)%s; random positive data; labels on/off. Checked against '
                      'explicit index arithmetic: fold entry law (t<T/2: x+mirror, t=T/2: half-sum, t>T/2: 0 and masked; rel %g on unmasked), '
-                     'mask = own|mirror|folded-out (+ the two corners, constructor default), total = sum of x over entries unmasked together '
+                     'mask = own|mirror|folded-out (corners included: nothing else is masked), total = sum of x over entries unmasked together '
                      'with their mirror (rel %g), fold(mirror(x)) == fold(x), fold(unfold(fold(x))) == fold(x) incl. masks, unfold law '
                      '(half-sum, symmetric mask, total kept), fold of folded / unfold of unfolded raise ValueError, labels/extrap_x kept, '
                      'input untouched' % (shard, nshard, npat,
